@@ -473,4 +473,32 @@ def r7_clone(F, R):
     R.floor(2)
 
 
-RULES = [("R1", r1, None), ("R2", r2, None), ("R3", r3, None), ("R4", r4, None), ("R5", r5, None), ("R6", r6, None), ("R7", r7_clone, None)]
+def r8(F, R):
+    """"... and never of another scenario": logs are routed by the attempt's `ScenarioId`; two attempts in flight must never share one —
+    `ScenarioId::new()` returns what a `fetch_add` with a non-zero constant step on a `static` atomic returned, and every dispatched
+    attempt gets its id from it (no constant / copied id)."""
+    news = [b for b in F.crate_bodies() if (b.impl or {}).get("self_adt") == "runner::basic::ScenarioId" and not (b.impl or {}).get("trait") and b.arg_count == 0
+            and re.sub(r"<.*", "", b.locals[0]) == "runner::basic::ScenarioId"]
+    if len(news) != 1:
+        raise Unverifiable(f"ScenarioId constructor: {len(news)}")
+    b = news[0]
+    fa = [(s_, t) for s_, t in b.calls(lambda t: callee_is(t, r"Atomic(\w*|::<.*>)::fetch_add$"))]
+    ok = len(fa) == 1 and const_int(fa[0][1]["args"][1]) not in (None, 0)
+    if ok:
+        rets = [st for _, st in b.assigns(lambda st: st["pl"]["l"] == 0)]
+        sl = A.slice_back(b, [{"k": "copy", "pl": {"l": 0, "p": []}}]) if False else None
+        aggs = [st for _, st in b.assigns(lambda st: st["rv"]["k"] == "agg" and st["rv"].get("adt") == "runner::basic::ScenarioId")]
+        ok = len(aggs) == 1 and op_local(aggs[0]["rv"]["ops"][0]) is not None and \
+            A.canon_place(b, {"l": op_local(aggs[0]["rv"]["ops"][0]), "p": []})["l"] == A.canon_place(b, fa[0][1]["dest"])["l"]
+    R.check(ok, "scenario-id-fresh", b, "ScenarioId::new = static counter.fetch_add(non-zero)", "`ScenarioId::new()` does not hand out the value of a `fetch_add(<non-zero>)` on its counter: two attempts can get the same id and receive each other's logs")
+    # every id given to an attempt comes from the constructor
+    ctor_calls = [(nb, s_) for nb in F.crate_bodies() for s_, t in nb.calls() if F.callee_body(t, nb.crate) is b or
+                  (callee_is(t, r"Default::default$") and (op_fn(t["func"]) or {}).get("self") == "runner::basic::ScenarioId")]
+    lit = [(nb, s_) for nb in F.crate_bodies() if nb is not b and nb.name.startswith("runner::") and not nb.name.startswith("runner::basic::retry_options") for s_, st in nb.assigns(lambda st: st["rv"]["k"] == "agg" and st["rv"].get("adt") == "runner::basic::ScenarioId")
+           if not ((nb.impl or {}).get("trait") in ("std::clone::Clone", "std::str::FromStr", "std::default::Default"))]
+    R.check(bool(ctor_calls) and not lit, "scenario-id-only-from-constructor", b, f"{len(ctor_calls)} constructor call site(s), no literal ids",
+            f"scenario ids are built outside the constructor at {[str(x[1].loc) for x in lit][:3]} (constructor calls: {len(ctor_calls)})")
+    R.floor(2)
+
+
+RULES = [("R1", r1, None), ("R2", r2, None), ("R3", r3, None), ("R4", r4, None), ("R5", r5, None), ("R6", r6, None), ("R7", r7_clone, None), ("R8", r8, None)]
